@@ -91,6 +91,34 @@ def run_bounded(script, prop, tier, seed, extra=(), timeout=3600):
     return r
 
 
+def tree_hashes():
+    """AST hash of every non-test source file of the package in the tree under check"""
+    import ast
+    out = {}
+    root = os.path.join(REPO, "skactiveml")
+    for dp, dn, fn in os.walk(root):
+        if "tests" in dp.split(os.sep):
+            continue
+        for f in fn:
+            if f.endswith(".py"):
+                path = os.path.join(dp, f)
+                try:
+                    out[os.path.relpath(path, REPO)] = hashlib.sha256(ast.dump(ast.parse(open(path).read())).encode()).hexdigest()[:16]
+                except SyntaxError:
+                    out[os.path.relpath(path, REPO)] = "syntax-error"
+    return out
+
+
+def changed_files():
+    """files whose AST differs from the tree the contracts were last validated on (baseline/tree.json); None if there is no baseline"""
+    p = os.path.join(ROOT, "baseline", "tree.json")
+    if not os.path.exists(p):
+        return None
+    base = json.load(open(p))
+    cur = tree_hashes()
+    return sorted(f for f in set(base) | set(cur) if base.get(f) != cur.get(f))
+
+
 def replay_counter_model(path, timeout=300):
     """run bounded/replay.py on a replay file under the repository's interpreter; exit 1 = violation reproduced"""
     env = dict(os.environ)
@@ -160,8 +188,18 @@ class Check:
         functions = []
         proof_lost = []
         kf_obls = []
+        changed = None
         for u in self.unit_results:
             if u.get("crash"):
+                if changed is None:
+                    changed = changed_files() or []
+                if changed and not str(u["crash"]).startswith(("solver disagreement",)):
+                    # the sidecar contract (loop labels, names of loop-carried variables, shapes it expects) was written against the code of
+                    # the validated tree; on a tree with changed sources a contract that no longer applies is a lost proof, not a checker error
+                    self.undecided.append({"unit": u["unit"], "reason": "contract does not apply to the changed code (" + str(u["crash"])[:160]
+                                           + "); changed files: " + ", ".join(changed[:4])})
+                    proof_lost.append({"unit": u["unit"], "reason": "contract does not apply: " + str(u["crash"])[:200]})
+                    continue
                 self.crashes.append({"unit": u["unit"], "crash": u["crash"], "trace": u.get("trace", "")})
                 continue
             functions.append({k: u.get(k) for k in ("unit", "target", "src_hash", "paths", "abstracted", "dropped", "lib",
@@ -174,6 +212,15 @@ class Check:
                 self.crashes.append({"unit": u["unit"], "crash": "zero obligations generated (vacuous run)"})
                 continue
             if u.get("vacuous"):
+                if changed is None:
+                    changed = changed_files() or []
+                if changed:
+                    # on a changed tree a specification whose hypotheses became contradictory (e.g. an invariant that no longer fits the loop)
+                    # proves nothing: lost proof, decided by the stand-in
+                    self.undecided.append({"unit": u["unit"], "reason": "hypotheses of the contract are contradictory on the changed code ("
+                                           + str(u["vacuous"])[:120] + ")"})
+                    proof_lost.append({"unit": u["unit"], "reason": "vacuous on the changed code"})
+                    continue
                 self.crashes.append({"unit": u["unit"], "crash": "contradictory hypotheses: " + str(u["vacuous"])})
                 continue
             for ob in u["obligations"]:
@@ -295,6 +342,11 @@ class Check:
             "explanation": explanation or self.explanation,
             "undecided": self.undecided[:20],
         }
+        ren = {}
+        for u in self.unit_results:
+            ren.update(u.get("renamed_locals") or {})
+        if ren:
+            cov["verified_up_to_renaming_of_locals"] = ren
         if s["evaluations"] > 0:
             cov["evaluations"] = s["evaluations"]
             cov["distinct_nontrivial"] = s["distinct"]
